@@ -163,3 +163,35 @@ def compile_check(lang, path, extra=(), timeout=120):
         cmd = ["g++", "-std=c++11", "-fsyntax-only", "-x", "c++", path]
     p = subprocess.run(cmd + list(extra), stdout=subprocess.PIPE, stderr=subprocess.STDOUT, text=True, timeout=timeout)
     return p.returncode == 0, p.stdout
+
+
+# ------------------------------------------------------------------------------------------------
+# Signatures that are recorded as observations, never judged.
+#
+# The input headers are synthesised (no cbindgen offline). A failure is only reported as a violation
+# when its cause can be confirmed from the tool's own source or from the headers published under
+# /repo/examples independently of how cbindgen renders a construct. The causes below depend on details
+# of cbindgen's *C++ template / type-alias* output (or on an argument kind outside the property's
+# quantifier) that cannot be confirmed without the real cbindgen, so they are counted in the evidence
+# (`unjudged_observations`) and excluded from the verdict. See DESIGN.md, C17/C18.
+import re as _re
+
+UNJUDGED = [
+    (r":traitobj_spec_without_primary$", "C++: CGlueTraitObj specialisations without primary template in a group-only header (depends on which generic structs cbindgen emits)"),
+    (r":rustmaybeuninit_undefined$", "C++: RustMaybeUninit used but not defined when the input has no MaybeUninit (depends on cbindgen's C++ rendering)"),
+    (r":nocontext_incomplete_type$", "C++: NoContext only forward-declared (depends on how cbindgen renders `type NoContext = PhantomData<c_void>`)"),
+    (r":default_container_without_default_context$", "C++: config with default_container only"),
+    (r":default_context_falls_back_to_undeclared_nocontext$", "C++: config falls back to NoContext"),
+    (r":fnptr_argument_misparsed$", "raw function-pointer arguments are outside the property's argument kinds (scalar/struct/slice/callback/pointer)"),
+]
+
+
+def split_judged(violations):
+    """-> (judged [(sig, desc)], unjudged {sig: count})"""
+    judged, unj = [], {}
+    for s, d in violations:
+        if any(_re.search(rx, s) for rx, _ in UNJUDGED):
+            unj[s] = unj.get(s, 0) + 1
+        else:
+            judged.append((s, d))
+    return judged, unj
